@@ -359,14 +359,14 @@ def _base(globals_=None):
     return {"structs": [], "globals": [dict(G_RW)] if globals_ is None else globals_, "consts": [], "overrides": [], "functions": [], "entries": []}
 
 
-def chain(depth, ret, stages=("compute",), ctx=None):
+def chain(depth, ret, stages=("compute",), ctx=None, pure=False):
     S = _base()
     for i in range(depth):
         body = []
         if i + 1 < depth:
             c = {"k": "call", "f": "h%d" % (i + 1), "expr": ret}
             body.append({"k": "block", "ctx": ctx, "items": [c]} if ctx else c)
-        else:
+        elif not pure:
             body.append({"k": "access", "g": "buf", "how": "store"})
         S["functions"].append({"name": "h%d" % i, "ret": ret, "body": body})
     for k, st in enumerate(stages):
@@ -394,7 +394,7 @@ def dag_arg(n):
     return S
 
 
-def diamond(levels, ret, width=2):
+def diamond(levels, ret, width=2, pure=False):
     S = _base()
     for l in range(levels):
         for w in range(width):
@@ -402,7 +402,7 @@ def diamond(levels, ret, width=2):
             if l + 1 < levels:
                 for w2 in range(width):
                     body.append({"k": "call", "f": "d%d_%d" % (l + 1, w2), "expr": ret})
-            else:
+            elif not pure or (pure == "one" and w == 0):
                 body.append({"k": "access", "g": "buf", "how": "load"})
             S["functions"].append({"name": "d%d_%d" % (l, w), "ret": ret, "body": body})
     S["entries"].append({"name": "main", "stage": "compute", "params": [], "wg": ["1"],
@@ -457,6 +457,9 @@ def growth_cases(quick):
         cases.append(("chain-switchmulti-d%d" % d, chain(d, False, ctx="switch_multi")))
         cases.append(("chain-ifelse-d%d" % d, chain(d, True, ctx="if_else_if")))
         cases.append(("dagarg-d%d" % d, dag_arg(d)))
+        # helpers that touch no resource at all (nothing to remember for a cache keyed on what a function uses)
+        cases.append(("chain-pure-d%d-ret" % d, chain(d, True, pure=True)))
+        cases.append(("chain-pure-d%d-void" % d, chain(d, False, pure=True)))
     for d in [4, 8, 16, 24, 30]:
         for ctx in ["plain", "if_accept", "if_reject", "switch_case", "switch_multi", "switch_default", "loop_body", "loop_continuing"]:
             cases.append(("nested-%s-d%d" % (ctx, d), nested(ctx, d)))
@@ -464,6 +467,9 @@ def growth_cases(quick):
         for ret in (False, True):
             cases.append(("diamond-l%d-%s" % (l, "ret" if ret else "void"), diamond(l, ret)))
         cases.append(("diamond3-l%d" % l, diamond(min(l, 20), True, width=3)))
+        cases.append(("diamond-pure-l%d-ret" % l, diamond(l, True, pure=True)))
+        cases.append(("diamond-pure-l%d-void" % l, diamond(l, False, pure=True)))
+        cases.append(("diamond-pure1-l%d" % l, diamond(l, True, pure="one")))
     for n in [4, 16, 64, 150]:
         for ret in (False, True):
             cases.append(("fanin-n%d-%s" % (n, "ret" if ret else "void"), fan_in(n, ret)))
